@@ -139,6 +139,15 @@ func (w checkedWire) RoundTrip(r *http.Request) (*http.Response, error) {
 
 // exchange submits the operation through a fresh client runtime whose transport is the wire double; serve is
 // run on the request as the server parsed it.
+// debugTransport: the exchanges of the current case run with Runtime.Debug on (requests and responses are dumped to a
+// logger, here a silent one). What goes over the wire does not depend on it.
+var debugTransport bool
+
+type silentLogger struct{}
+
+func (silentLogger) Printf(string, ...interface{}) {}
+func (silentLogger) Debugf(string, ...interface{}) {}
+
 func exchange(op *runtime.ClientOperation, def runtime.ClientAuthInfoWriter, serve func(r *http.Request)) *kit.Violation {
 	return exchangeAfter(nil, op, def, serve)
 }
@@ -162,6 +171,10 @@ func exchangeAfterBase(base string, earlier runtime.ClientAuthInfoWriter, op *ru
 	})}
 	rt := client.New("example.test", base, []string{"http"})
 	rt.Transport = checkedWire{w}
+	if debugTransport {
+		rt.SetLogger(silentLogger{})
+		rt.SetDebug(true)
+	}
 	if earlier != nil {
 		rt.DefaultAuthentication = earlier
 		warm := &runtime.ClientOperation{ID: "earlier", Method: "GET", PathPattern: "/earlier",
@@ -213,6 +226,7 @@ func authParam(r *http.Request, scoped bool, scopes []string) interface{} {
 
 // BasicCase: a basic credential (or none, or another scheme) against BasicAuth[Realm][Ctx].
 type BasicCase struct {
+	Debug    bool     `json:"debug,omitempty"` // the transport runs with Runtime.Debug on
 	User     kit.BStr `json:"user"`
 	Pass     kit.BStr `json:"pass"`
 	Realm    string   `json:"realm"`
@@ -291,6 +305,8 @@ func runBasic(c BasicCase, ctxVariant bool) (*seen, *kit.Violation) {
 
 // CheckBasic judges both variants of the basic authenticator on the request the client built.
 func CheckBasic(c BasicCase) *kit.Violation {
+	debugTransport = c.Debug
+	defer func() { debugTransport = false }()
 	for _, ctxVariant := range []bool{false, true} {
 		s, v := runBasic(c, ctxVariant)
 		if v != nil {
@@ -327,10 +343,11 @@ func CheckBasic(c BasicCase) *kit.Violation {
 
 // KeyCase: an API key in a header or the query against APIKeyAuth[Ctx].
 type KeyCase struct {
-	In         string   `json:"in"`          // header | query: where the description puts the key
-	ServerIn   string   `json:"server_in"`   // the spelling handed to security.APIKeyAuth ("header", "Header", "QUERY", …)
-	Name       string   `json:"name"`        // the name the client writes
-	ServerName string   `json:"server_name"` // the name the server reads (headers: may differ in case)
+	Debug      bool     `json:"debug,omitempty"` // the transport runs with Runtime.Debug on
+	In         string   `json:"in"`              // header | query: where the description puts the key
+	ServerIn   string   `json:"server_in"`       // the spelling handed to security.APIKeyAuth ("header", "Header", "QUERY", …)
+	Name       string   `json:"name"`            // the name the client writes
+	ServerName string   `json:"server_name"`     // the name the server reads (headers: may differ in case)
 	Value      kit.BStr `json:"value"`
 	Send       string   `json:"send"` // right | none | other-location | other-name
 	Callback   string   `json:"callback"`
@@ -415,6 +432,8 @@ func runKey(c KeyCase, ctxVariant bool) (*seen, *kit.Violation) {
 
 // CheckKey judges both variants of the API key authenticator.
 func CheckKey(c KeyCase) *kit.Violation {
+	debugTransport = c.Debug
+	defer func() { debugTransport = false }()
 	for _, ctxVariant := range []bool{false, true} {
 		s, v := runKey(c, ctxVariant)
 		if v != nil {
@@ -442,9 +461,10 @@ func CheckKey(c KeyCase) *kit.Violation {
 
 // BearerCase: any combination of token placements against BearerAuth[Ctx].
 type BearerCase struct {
-	Scheme   string   `json:"scheme"` // the security scheme name handed to BearerAuth
-	Scopes   []string `json:"scopes"` // the operation's required scopes
-	Header   string   `json:"header"` // "" | bearer | basic | scheme-only | other
+	Debug    bool     `json:"debug,omitempty"` // the transport runs with Runtime.Debug on
+	Scheme   string   `json:"scheme"`          // the security scheme name handed to BearerAuth
+	Scopes   []string `json:"scopes"`          // the operation's required scopes
+	Header   string   `json:"header"`          // "" | bearer | basic | scheme-only | other
 	HdrTok   kit.BStr `json:"hdr_tok,omitempty"`
 	Query    bool     `json:"query,omitempty"`
 	QueryTok kit.BStr `json:"query_tok,omitempty"`
@@ -549,6 +569,8 @@ func runBearer(c BearerCase, ctxVariant bool) (*seen, *kit.Violation) {
 
 // CheckBearer judges both variants of the bearer authenticator.
 func CheckBearer(c BearerCase) *kit.Violation {
+	debugTransport = c.Debug
+	defer func() { debugTransport = false }()
 	want, from := c.want()
 	for _, ctxVariant := range []bool{false, true} {
 		s, v := runBearer(c, ctxVariant)
@@ -650,6 +672,7 @@ func (c Cred) writesAuthorization() bool {
 // DefaultCase: a transport-wide default credential vs the operation's own writer vs an Authorization header the
 // parameter writer has already set.
 type DefaultCase struct {
+	Debug   bool     `json:"debug,omitempty"` // the transport runs with Runtime.Debug on
 	Default Cred     `json:"default"`
 	Op      *Cred    `json:"op,omitempty"`
 	Preset  kit.BStr `json:"preset,omitempty"` // Authorization value set by the parameter writer ("" = not set); never a Basic/Bearer credential
@@ -662,6 +685,8 @@ type DefaultCase struct {
 // CheckDefault: the default credential is applied iff the operation has no writer of its own and no
 // Authorization header is already set; what the server authenticators recover is exactly the effective credential.
 func CheckDefault(c DefaultCase) *kit.Violation {
+	debugTransport = c.Debug
+	defer func() { debugTransport = false }()
 	var got recovered
 	var authz []string
 	calls := 0
